@@ -13,7 +13,7 @@
 From Coq Require Import String Ascii ZArith List Bool.
 From GT Require Import Base.GEnumStr.
 From GT Require Import Base.GEnumSort.
-From GT Require Import GEnumModel.
+From GT Require Import GEnumModel GEnumProofs.
 Import ListNotations.
 Local Open Scope string_scope.
 Local Open Scope list_scope.
@@ -156,3 +156,12 @@ Lemma equal_cells_orig :
                /\ sem_parse t {| dty := "int"; dval := PInt 10 |} = Some 0
                /\ sem_parse t {| dty := "int"; dval := PInt 12 |} = Some 1.
 Proof. split; [vm_compute; reflexivity|]. eexists. split; [vm_compute; reflexivity|]. vm_compute. split; reflexivity. Qed.
+
+(* a parsable plain-string trait that spells its value's own name: `case "Red", "Red"` (before fix
+   C12-parsable-trait-equals-name); the name of another definition is now refused *)
+Lemma own_name_orig :
+  is_builderr (gen_orig GEnumProofs.on_defn GEnumProofs.on_opts) = true
+  /\ is_built (gen GEnumProofs.on_defn GEnumProofs.on_opts) = true
+  /\ is_builderr (gen_orig GEnumProofs.on_clash GEnumProofs.on_opts) = true
+  /\ is_generr (gen GEnumProofs.on_clash GEnumProofs.on_opts) = true.
+Proof. vm_compute. repeat split. Qed.
